@@ -220,6 +220,31 @@ theorem runHmmerGene_perm (cut : Int → Option Int) (minScore maxEvalue : Int) 
       simp only at h1 ⊢
       exact removeOverlapping_perm hp h1
 
+/-! ### `run_hmmer`, the whole record -/
+
+theorem runHmmer_foldl_ok (cut : Int → Option Int) (minScore maxEvalue : Int) (raw : List (Int × RawHmm))
+    (outOf : Int → List HHit) : ∀ (loci : List Int) (acc : List (Int × HHit)),
+    (∀ g ∈ loci, runHmmerGene cut minScore maxEvalue ((raw.filter fun r => r.1 == g).map (·.2)) = .ok (outOf g)) →
+    loci.foldl (runHmmerStep cut minScore maxEvalue raw) (Except.ok acc : Except HErr (List (Int × HHit))) =
+      .ok (acc ++ loci.flatMap fun g => (outOf g).map fun h => (g, h))
+  | [], acc, _ => by simp
+  | g :: loci, acc, h => by
+    simp only [List.foldl_cons, runHmmerStep, h g (by simp), List.flatMap_cons]
+    rw [runHmmer_foldl_ok cut minScore maxEvalue raw outOf loci _ (fun g' hg' => h g' (List.mem_cons_of_mem _ hg'))]
+    simp
+
+/-- with filtering the record's hits are the loci's own results, one locus after the other in the
+    order the loci first appear among the passing hits -/
+theorem runHmmerRecord_ok (cut : Int → Option Int) (minScore maxEvalue : Int) (raw : List (Int × RawHmm))
+    (outOf : Int → List HHit)
+    (h : ∀ g ∈ runHmmerLoci minScore maxEvalue raw,
+      runHmmerGene cut minScore maxEvalue ((raw.filter fun r => r.1 == g).map (·.2)) = .ok (outOf g)) :
+    runHmmerRecord cut minScore maxEvalue raw true =
+      .ok ((runHmmerLoci minScore maxEvalue raw).flatMap fun g => (outOf g).map fun h => (g, h)) := by
+  simp only [runHmmerRecord, Bool.not_true, Bool.false_eq_true, if_false]
+  rw [runHmmer_foldl_ok cut minScore maxEvalue raw outOf _ [] h]
+  simp
+
 /-! ### `domain_identification`, one gene -/
 
 theorem findDomainsGene_same_set (env : Env) (L : Int) {r₁ r₂ : List Hit} (h : ∀ x, x ∈ r₁ ↔ x ∈ r₂) :
